@@ -19,7 +19,7 @@ var profiles = map[string][]weighted{
 	"snapshot": {{"apply", 35}, {"tick", 6}, {"lagcompact", 8}, {"stalesuffix", 6}, {"snapshot", 8}, {"crash", 6}, {"crashop", 6}, {"restart", 8},
 		{"isolate", 6}, {"heal", 8}, {"restartall", 2}, {"addvoter", 1}, {"remove", 1}, {"demote", 1}, {"transfer", 2}, {"reload", 2}, {"join", 2}, {"flakyreads", 5}, {"snapcfg", 6}, {"staleis", 4}},
 	"durability": {{"apply", 30}, {"tick", 6}, {"restartall", 6}, {"crash", 8}, {"restart", 10}, {"crashop", 8}, {"isolate", 8}, {"partition", 8},
-		{"heal", 10}, {"reload", 4}, {"remove", 1}, {"addvoter", 1}, {"demote", 1}, {"stalesuffix", 4}, {"transfer", 2}, {"lossy", 2}, {"cfgrestart", 5}, {"flakyreads", 3}},
+		{"heal", 10}, {"reload", 4}, {"remove", 1}, {"addvoter", 1}, {"demote", 1}, {"stalesuffix", 4}, {"transfer", 2}, {"lossy", 2}, {"cfgrestart", 5}, {"flakyreads", 3}, {"snapcfg", 4}},
 	"commit": {{"apply", 35}, {"tick", 6}, {"cutleader", 8}, {"partition", 8}, {"isolate", 4}, {"heal", 10}, {"addvoter", 2}, {"addnonvoter", 2},
 		{"demote", 2}, {"remove", 1}, {"crash", 4}, {"restart", 5}, {"barrier", 2}, {"lossy", 2}, {"join", 2}, {"flakyreads", 3}},
 	"membership": {{"apply", 20}, {"tick", 6}, {"addvoter", 9}, {"addnonvoter", 6}, {"demote", 7}, {"remove", 8}, {"transfer", 6}, {"isolate", 6},
@@ -234,7 +234,7 @@ func genAction(t *rapid.T, p *Program, ws []weighted) Action {
 	case "snapcfg":
 		a.N = oneOf(t, "burst", 2, 3, 5, 10)
 		a.Arg = rapid.IntRange(0, 3).Draw(t, "change")
-		a.Set = []int{rapid.IntRange(0, p.N-1).Draw(t, "member")}
+		a.Set = []int{rapid.IntRange(0, p.N-1).Draw(t, "member"), oneOf(t, "busyLead", 0, 0, 1, 2, 3)}
 	case "cfgrestart":
 		a.N = oneOf(t, "writes", 0, 1, 1, 2, 3)
 		a.Arg = rapid.IntRange(0, 3).Draw(t, "change")
